@@ -22,13 +22,14 @@ EXTENDS Integers, Sequences, FiniteSets, TLC
 CONSTANTS
   SS,             \* workers per steal ring (DISPENSO_TUNE_STEAL_RING_SHARING)
   MaxW,           \* largest pool (worker names w0 .. w(MaxW-1))
-  Configs         \* the scenarios: records [nw, prog, wps, inl]; one is chosen by Init and never changes
+  Progs,          \* the program table (a sequence of programs)
+  Configs         \* the scenarios: records [nw, p, wps, inl] (p indexes Progs); one is chosen by Init and never changes
 
 (* The scenario is a variable fixed at Init so that ONE model-checking run (and one trace-validation *)
 (* run) covers the whole program x pool-size matrix.                                                *)
 VARIABLE conf
 NW == conf.nw                \* pool threads
-Prog == conf.prog            \* [sets |-> <<kind,...>>, tasks |-> <<[set, body],...>>, main |-> <<op,...>>]
+Prog == Progs[conf.p]        \* [sets |-> <<kind,...>>, tasks |-> <<[set, body],...>>, main |-> <<op,...>>]
 WaitPollSteal == conf.wps    \* waiters also pop steal rings (TRUE = repaired code)
 AllowInline == conf.inl      \* a non-forced schedule may run the task on the caller (load decisions abstracted)
 
